@@ -606,3 +606,38 @@ def api_raw(rng, T):
     after += [["sleep", 5.0], ["close", "final"]]
     spec["after"] = after
     return spec
+
+
+def conv_race(rng, T):
+    """C04 flavour: two threads decode through the same class-level converter, with thread switches between any two bytecodes of to_value"""
+    c = rng.choice(T["classes"])
+    f = rng.choice([f for f in c["fns"] if f["get"]])
+    ks = [f["conv"]] if f["conv"]["k"] != "multi" else f["conv"]["items"]
+    pool = []
+    for k in ks:
+        if k["k"] == "enum":
+            mem = [m[1] for m in T["enums"][k["enum"]]["members"]]
+            pool += rng.sample(mem, min(len(mem), 4)) + [mem[0] + " (Eco)", "Bogus", mem[-1].lower()]
+        elif k["k"] == "str":
+            pool += ["a", "b b", ""]
+        else:
+            pool += ["1", "-12", "5", "abc"] + (["-30.5", "87.50"] if k["k"] == "float" else [])
+    texts = [[rng.choice(pool) for _ in range(rng.randint(2, 6))] for _ in range(2)]
+    if rng.random() < 0.6:
+        texts[1][0] = texts[0][0]              # both threads start on the same text
+    return {"kind": "conv_race", "class": c["py"], "attr": f["attr"], "fn": f["name"], "texts": texts, "hot": "to_value|_missing_", "hot_budget": rng.choice([6, 20])}
+
+
+def api_close_race(rng, T):
+    """C16 flavour: YncaApi.close() from a second thread at a random moment of (or after) initialize() against a healthy small receiver"""
+    spec = api_init(rng, T)
+    present = spec["present"][:3]
+    spec["present"] = present
+    spec["device"]["avail"] = {s: "Ready" for s in present}
+    spec["device"]["table"] = device_table(rng, T, ["SYS"] + present, p_answer=0.5)
+    spec["device"]["latency"] = rng.choice([0.0, 0.02, 0.06, 0.15])
+    spec["device"].pop("swallow_first", None)
+    spec["closer"] = {"at": round(rng.choice([0.0, 0.05, rng.uniform(0.0, 3.0), rng.uniform(0.0, 12.0), rng.uniform(10.0, 40.0)]), 3), "times": rng.choice([1, 1, 2])}
+    spec["after"] = [["sleep", 3.0], ["dump"], ["close"]]
+    spec["final_wait"] = 8
+    return spec
